@@ -13,7 +13,7 @@ from fractions import Fraction as Fr
 
 from mc.engine import hbfs, par
 from mc.engine.report import Violation
-from mc.engine.seams import Canon, reset_library, public_snapshot
+from mc.engine.seams import Canon, reset_library, public_snapshot, new_model
 
 import ECAgent.Core as Core
 import ECAgent.Environments as Envs
@@ -115,13 +115,13 @@ def single_world(case):
     wrap, full = case['wrap'], case['full']
     cont = kind == 'space'
     d3 = list(dims) + [0] * (3 - len(dims))
-    model = Core.Model(seed=1)
+    model = new_model(seed=1)
     env = model.environment = mk(model, kind, dims, wrap)
     a = Core.Agent('a', model)
     nargs = 2 if kind == 'grid' else 3
     env.add_agent(a, *([0] * nargs))
     # a second world (other model) holding an agent with the same id at a fixed spot, queried in between
-    m2 = Core.Model(seed=2)
+    m2 = new_model(seed=2)
     env2 = m2.environment = mk(m2, kind, dims, not wrap)
     b = Core.Agent('a', m2)
     env2.add_agent(b, *([1] * nargs))
@@ -168,7 +168,7 @@ def crowd_case(case):
     reset_library()
     kind, dims = WORLDS[case['world']]
     n = case['n']
-    model = Core.Model(seed=1)
+    model = new_model(seed=1)
     if case.get('huge'):
         env = model.environment = Envs.SpaceWorld(model, 2 ** 60, 3, 0)
         kind, dims = 'space', [2 ** 60, 3, 0]
@@ -238,7 +238,7 @@ def crowd_case(case):
 def replaced_world_case(case):
     """A model is given a second world: agents of the abandoned world never show up in queries on the new one."""
     reset_library()
-    model = Core.Model(seed=1)
+    model = new_model(seed=1)
     old = model.environment = Envs.GridWorld(model, 4, 3)
     for i in range(3):
         old.add_agent(Core.Agent(f'o{i}', model), i, 1)
@@ -304,12 +304,12 @@ class Population:
 
     def fresh(self):
         w = World()
-        w.model = Core.Model(seed=1)
+        w.model = new_model(seed=1)
         w.env = w.model.environment = mk(w.model, self.kind, self.dims, self.wrap)
         w.agents = {k: Core.Agent(k, w.model) for k in self.keys}
         w.order = []
         # bystander world: same agent ids, fixed positions, queried in every state
-        w.m2 = Core.Model(seed=2)
+        w.m2 = new_model(seed=2)
         w.env2 = w.m2.environment = mk(w.m2, self.kind, self.dims, self.wrap)
         w.by = [Core.Agent(k, w.m2) for k in ('c', 'a')]
         for i, ag in enumerate(w.by):
